@@ -98,7 +98,8 @@ class Session:
         r = lentil.radiometry
         self.pool['S1'] = r.Spectrum(wave=np.arange(400, 411, dtype=float), value=nrng.uniform(1, 2, size=11), waveunit='nm', valueunit=None)
         self.pool['S2'] = r.Spectrum(wave=np.arange(402, 414, 2, dtype=float), value=nrng.uniform(1, 2, size=6), waveunit='nm', valueunit=None)
-        self.pool['P1'] = lentil.Pupil(amplitude=self.pool['A1'].copy(), opd=self.pool['O1'].copy(), mask=(m != 0).astype(int),
+        # (the plane is built ON the caller's OPD array: fitting tilt in place changes the plane, not the caller's array)
+        self.pool['P1'] = lentil.Pupil(amplitude=self.pool['A1'].copy(), opd=self.pool['O1'], mask=(m != 0).astype(int),
                                        pixelscale=0.5, focal_length=4.0)
         self.pool['W1'] = lentil.Wavefront(2.0 ** -7) * self.pool['P1']
         # a wavefront that carries tilt from its creation, and a plane given by a mask only (scalar amplitude and OPD)
@@ -156,8 +157,8 @@ class Session:
         nz = rng.choice((True, False))
         menu = [
             ('Plane', lambda: l.Plane(amplitude=p['A1'], mask=p['M1']), ['A1', 'M1'], ()),
-            ('Pupil', lambda: l.Pupil(amplitude=p['A2'], opd=p['O1'].copy(), mask=p['Mi'], pixelscale=0.5, focal_length=4.0), ['A2', 'Mi'], ()),
-            ('Pupil_nomask', lambda: l.Pupil(amplitude=p['A2'], opd=p['O1'].copy(), pixelscale=0.5, focal_length=4.0), ['A2'], (), 'P2'),
+            ('Pupil', lambda: l.Pupil(amplitude=p['A2'], opd=p['O1'].copy(), mask=p['Mi'], pixelscale=0.5, focal_length=4.0), ['A2', 'O1', 'Mi'], ()),
+            ('Pupil_nomask', lambda: l.Pupil(amplitude=p['A2'], opd=p['O1'].copy(), pixelscale=0.5, focal_length=4.0), ['A2', 'O1'], (), 'P2'),
             ('Image', lambda: l.Image(amplitude=p['A1'], mask=p['M1']), ['A1', 'M1'], ()),
             ('multiply', lambda: l.Wavefront(2.0 ** -7) * p['P1'], ['P1'], (), 'W1'),
             ('multiply_tilt', lambda: p['W1'] * l.Tilt(x=1e-4, y=-2e-4), ['W1'], ()),
@@ -351,6 +352,32 @@ def plane_histories(ctx, lentil):
     c10_planehist.run(ctx, lentil)
 
 
+def element_states(ctx, lentil):
+    """the same element state reached by construction or by attribute updates (of the same or of another polynomial order) gives the same
+    displacement and the same propagated field"""
+    rng = random.Random(77 + ctx.seed)
+    pm = lentil.circle((16, 16), 6, antialias=False)
+    n = 0
+    for _ in range(40):
+        to, do = rng.choice((1, 2, 3)), rng.choice((1, 2, 3))
+        trace = [rng.uniform(-0.3, 0.3) for _ in range(to - 1)] + [rng.uniform(-1.0, 1.0), rng.uniform(-1e-4, 1e-4)]
+        disp = [rng.uniform(-1e-9, 1e-9) for _ in range(do - 1)] + [rng.choice((-1, 1)) * rng.uniform(2e-6, 8e-6), 600e-9]
+        lam = 600e-9 + rng.choice((-20e-9, 15e-9))
+        direct = lentil.DispersiveTilt(trace=trace, dispersion=disp)
+        to0, do0 = rng.choice((1, 2, 3)), rng.choice((1, 2, 3))
+        via = lentil.DispersiveTilt(trace=[0.1] * to0 + [0.0], dispersion=[1e-10] * (do0 - 1) + [3e-6, 600e-9])
+        via.shift(wavelength=lam)                     # used once in its first state
+        via.trace = np.asarray(trace)
+        via.dispersion = np.asarray(disp)
+        n += 1
+        ctx.case(('element-state', to, do, to0, do0))
+        a, b = direct.shift(wavelength=lam), via.shift(wavelength=lam)
+        if not np.allclose(np.ravel(a), np.ravel(b), rtol=1e-9, atol=1e-15):
+            ctx.violation({'kind': 'state-reached-by-attribute-updates', 'cls': 'DispersiveTilt', 'order_changed': (to, do) != (to0, do0)},
+                          {'trace': trace, 'dispersion': disp, 'first_orders': [to0, do0], 'direct': np.ravel(a), 'updated': np.ravel(b)}, case=None)
+    ctx.extra['element_states_compared'] = n
+
+
 def run(ctx):
     lentil = import_lentil()
     q = ctx.tier == 'quick'
@@ -370,11 +397,12 @@ def run(ctx):
                       'callables_exercised': sorted({e['f'] for e in events})})
     ctx.sample({k: (v if k not in ('pre', 'post') else dict(list(v.items())[:3])) for k, v in events[5].items()}, maxn=1)
     plane_histories(ctx, lentil)
+    element_states(ctx, lentil)
     ctx.rule = ('sessions of 30 [40] random public calls on a shared pool (18 caller-owned objects); every event is judged by TLC; '
                 'a case = one call key (callable, parameters, argument contents); plus plane histories generated by TLC from '
                 'PlaneHist.tla (all of length <= 4, random of length 8) replayed on a real Pupil')
     ctx.assumptions += ['content digests (blake2b over dtype/shape/bytes, object attributes) identify object state',
-                        'OPDs handed to plane constructors are private copies, so in-place tilt fitting can only touch the plane']
+                        'the pool plane P1 is built on the caller-owned array O1 (no copy): documented in-place targets are the plane objects, never the arrays they were built from']
 
 
 def replay(ctx, rec):
